@@ -145,6 +145,12 @@ Section K.
       + contradiction.
   Qed.
 
+  Lemma store_never_panics k pos before val : fst (store_at i2f f32 k pos before val) <> SPanic.
+  Proof.
+    pose proof (store_at_exact k pos before val) as H.
+    destruct (expected i2f f32 k pos before val); rewrite H; discriminate.
+  Qed.
+
   (* all signed and unsigned 32/64-bit integers: stored exactly inside the range, rejected outside *)
   Lemma integers_exact_lemma k lo hi z : int_range k = Some (lo, hi) ->
     (lo <= z <= hi -> exists p, to_proto k (SInt z) = Stored p /\ to_starlark p = SInt z) /\
